@@ -516,7 +516,8 @@ def run_peer(ctx, cfg, tag):
     return res
 
 
-PEER_ORACLES = ("s_rb_mismatch", "s_below_gvt", "s_gvt_decrease", "s_gvt_disagree", "s_double_free", "s_vote_false_pred", "s_vote_uncommitted")
+PEER_ORACLES = ("s_rb_mismatch", "s_below_gvt", "s_gvt_decrease", "s_gvt_disagree", "s_double_free", "s_vote_false_pred", "s_vote_uncommitted",
+                "s_remote_id_not_unique")
 
 
 def peer_matrix(ctx, n_quick, n_thorough, salt=0, jobs=12):
